@@ -105,7 +105,14 @@ where
             .iter()
             .map(|&len| {
                 let data = pat_data(pat, seed, len);
-                match ImageRaw::<C, O>::new(&data, size) {
+                // new_const is the same constructor for const contexts: it panics exactly when new() returns an error
+                let r_new = ImageRaw::<C, O>::new(&data, size);
+                let const_ok = catch(|| ImageRaw::<C, O>::new_const(&data, size).size() == size).unwrap_or(false);
+                if const_ok != r_new.is_ok() {
+                    // reported as a third outcome (2 / 3) so that the acceptance rule of the trace spec fails for it
+                    return json!([len, if const_ok { 3 } else { 2 }, -1]);
+                }
+                match r_new {
                     Ok(_) => json!([len, 1, -1]),
                     Err(ImageRawError::InvalidDataSize { expected_data_size }) => json!([len, 0, expected_data_size]),
                 }
